@@ -606,12 +606,12 @@ def _is_valid_ipaddress(address: str) -> bool:
     try:
         socket.inet_pton(socket.AF_INET, address)
         return True
-    except OSError:
+    except (OSError, ValueError):  # ValueError: embedded NUL / unencodable character
         pass
     try:
         socket.inet_pton(socket.AF_INET6, address)
         return True
-    except OSError:
+    except (OSError, ValueError):  # ValueError: embedded NUL / unencodable character
         pass
     return False
 
